@@ -2,7 +2,7 @@
 """Print the prompt for a seeding agent: only the property's own text and its scratch worktree."""
 import json, sys
 pid, wt, out = sys.argv[1], sys.argv[2], sys.argv[3]
-tpl = open("/tmp/prompts/seed_template.md").read()
+tpl = open("/verif/tools/prompts/seed_template.md").read()
 for l in open("/verif/properties.jsonl"):
     p = json.loads(l)
     if p["id"] == pid:
